@@ -19,6 +19,7 @@ func workersCheck(r *vrt.Result) string {
 	runs := map[int][]fnrun{}
 	calls := map[int]*call{}
 	waited := -1
+	var waitrets []int64
 	for _, e := range r.Events {
 		switch e.Kind {
 		case "call":
@@ -33,6 +34,8 @@ func workersCheck(r *vrt.Result) string {
 			c.ret, c.res, c.err = e.Seq, e.Str(1), e.Str(2)
 		case "waited":
 			waited = e.Int(0)
+		case "waitret":
+			waitrets = append(waitrets, e.Seq)
 		}
 	}
 	for i, c := range calls {
@@ -67,6 +70,13 @@ func workersCheck(r *vrt.Result) string {
 		}
 		if running > maxReq {
 			return fmt.Sprintf("over-concurrency: %d functions running when the function of call %d started, largest count requested so far %d", running, i, maxReq)
+		}
+	}
+	for _, wr := range waitrets {
+		for i, rs := range runs {
+			if rs[0].start < wr && (rs[0].end == 0 || rs[0].end > wr) {
+				return fmt.Sprintf("wait-returned-early: a concurrent Wait returned while the function of call %d was running", i)
+			}
 		}
 	}
 	if waited != 0 {
@@ -121,6 +131,34 @@ func workerCheck(r *vrt.Result) string {
 	}
 	if len(inst) == 0 {
 		return "no-instance: no instance ever started"
+	}
+	return ""
+}
+
+// workerEarlyCheck: every instance's stop channel is eventually closed (its helper goroutine
+// finishes) although the function itself returned early; nothing is left running.
+func workerEarlyCheck(r *vrt.Result) string {
+	if r.Status == vrt.StSteps {
+		return "step-horizon: execution exceeded the step horizon"
+	}
+	if len(r.Panics) > 0 {
+		return fmt.Sprintf("panic: %s in T%s", r.Panics[0].Msg, r.Panics[0].Thread)
+	}
+	starts, saw := 0, 0
+	for _, e := range r.Events {
+		switch e.Kind {
+		case "fnstart":
+			starts++
+		case "helper-saw-stop":
+			saw++
+		}
+	}
+	if r.Status != vrt.StOK {
+		return fmt.Sprintf("%s: a call never returned: %v", r.Status, r.Blocked)
+	}
+	// the last instance may still be held open by nobody: its stop must be closed too at quiescence
+	if saw != starts || len(r.Leaked) > 0 {
+		return fmt.Sprintf("stop-never-closed: %d instances started but only %d stop channels were closed (still waiting: %v)", starts, saw, r.Leaked)
 	}
 	return ""
 }
